@@ -44,7 +44,7 @@ static struct {
 	/* counter */
 	nsync_counter c; long ref; int hist[256]; int nhist; int hstart[RT_MAXT]; long expect[RT_MAXT]; int prog_delta[RT_MAXT];
 	/* once */
-	nsync_once *once[2]; int runs[2], done[2], running[2];
+	nsync_once *once[2]; int runs[2], done[2], running[2], nest;
 	/* notes */
 	nsync_note note[MAXOBJ]; int nnotes; int freed[MAXOBJ]; int notify_called[MAXOBJ]; int parent_of[MAXOBJ]; int dl_of[MAXOBJ];
 	char *nwbase[RT_MAXT]; int wobjs[RT_MAXT][8]; int nwobjs[RT_MAXT]; int nwheap[RT_MAXT]; int nwinit[RT_MAXT];
@@ -73,7 +73,17 @@ static nsync_time deadline (int dl) {
 static int expired (int dl) { return dl < 0 || (dl > 0 && rt_now () >= RT_T0 + dl); }
 
 /* ------------------------------------------------------------------ once */
-static void once_fn0 (void) { rt_point ("f0"); S.runs[0]++; S.running[0] = 1; wr_cell (0); rt_point ("f1"); S.running[0] = 0; S.done[0] = 1; }
+static void once_fn1 (void);
+static void once_fa (void *a);
+/* the function of once 0; with Nest=k+1 in the scenario it first needs once 1 (which shares the once_sync slot) through entry point k */
+static void once_fn0 (void) {
+	rt_point ("f0"); S.runs[0]++; S.running[0] = 1; wr_cell (0);
+	if (S.nest == 1) nsync_run_once (S.once[1], once_fn1);
+	else if (S.nest == 2) nsync_run_once_arg (S.once[1], once_fa, (void *) 1L);
+	else if (S.nest == 3) nsync_run_once_spin (S.once[1], once_fn1);
+	else if (S.nest == 4) nsync_run_once_arg_spin (S.once[1], once_fa, (void *) 1L);
+	rt_point ("f1"); S.running[0] = 0; S.done[0] = 1;
+}
 static void once_fn1 (void) { rt_point ("f0"); S.runs[1]++; S.running[1] = 1; wr_cell (1); rt_point ("f1"); S.running[1] = 0; S.done[1] = 1; }
 static void once_fa (void *a) { if ((long) a == 0) once_fn0 (); else once_fn1 (); }
 
@@ -290,6 +300,7 @@ static void setup (const char *init) {
 		nsync_once *base = rt_malloc (sizeof (nsync_once) * 130);
 		memset (base, 0, sizeof (nsync_once) * 130);
 		S.once[0] = base; S.once[1] = base + 64;
+		{ const char *q = strstr (cur_init, "Nest="); S.nest = q ? atoi (q + 5) : 0; }
 		rt_name (S.once[0], sizeof (nsync_once), "once0"); rt_name (S.once[1], sizeof (nsync_once), "once1");
 	}
 	else if (S.kind == K_NOTE) {
